@@ -7,6 +7,7 @@ import (
 	"fmt"
 	"math/rand"
 	"os"
+	"runtime"
 	"sync"
 	"syscall"
 
@@ -117,12 +118,20 @@ func recordAccess(args []string) int {
 	return rep.Write(*repf)
 }
 
+// epochFailed: a parallel NextEpoch on a population with finite non-negative fitness values (at least one positive) returned
+// an error - the executor does not give what the sequential one gives (a cancelled context is not used here).
+func epochFailed(rep *vhu.Report, gen, size int, err error) {
+	rep.Fail(map[string]interface{}{"what": fmt.Sprintf("parallel NextEpoch of generation %d (%d organisms, GOMAXPROCS=%d) returned an error: %v",
+		gen, size, runtime.GOMAXPROCS(0), err), "signature": "parallel epoch error"})
+}
+
 func raceEpochs(args []string) int {
 	fs := flag.NewFlagSet("race-epochs", flag.ExitOnError)
 	repf := fs.String("report", "", "report file")
 	epochs := fs.Int("epochs", 5, "epochs per run")
 	runs := fs.Int("runs", 3, "runs")
 	seed := fs.Int64("seed", vhu.EnvSeed(), "seed")
+	long := fs.Bool("long", false, "also run the long-record family: hundreds of organisms, a wide genome, most babies add a link (hundreds of innovations per generation)")
 	loglevel := fs.String("loglevel", "", "run with this NEAT log level (the log level is an option setting like any other); the log itself is discarded")
 	_ = fs.Parse(args)
 	if *loglevel != "" {
@@ -137,6 +146,8 @@ func raceEpochs(args []string) int {
 	}
 	rep := &vhu.Report{Command: "race-epochs"}
 	multi := 0
+	longGrowth := []int{}
+	longRecord := 0
 	firstEpochSpecies := []int{}
 	// (a) first-use runs: fresh Options / Population objects whose FIRST parallel epoch already has many species, each of
 	// which is likely to perform a novel structural mutation (lazy initialisation touched by several goroutines at once)
@@ -165,6 +176,7 @@ func raceEpochs(args []string) int {
 				multi++
 			}
 			if err := ex.NextEpoch(ctx, gen, pop); err != nil {
+				epochFailed(rep, gen, len(pop.Organisms), err)
 				break
 			}
 			rep.Evaluations++
@@ -187,7 +199,7 @@ func raceEpochs(args []string) int {
 				multi++
 			}
 			if err := ex.NextEpoch(ctx, gen, pop); err != nil {
-				rep.Extra = map[string]interface{}{"epoch_error": err.Error()}
+				epochFailed(rep, gen, len(pop.Organisms), err)
 				break
 			}
 			rep.Evaluations++
@@ -221,14 +233,70 @@ func raceEpochs(args []string) int {
 				multi++
 			}
 			if err := ex.NextEpoch(ctx, gen, pop); err != nil {
+				epochFailed(rep, gen, len(pop.Organisms), err)
 				break
 			}
 			rep.Evaluations++
 		}
 	}
+	// (d) a LONG innovation record: hundreds of organisms of a wide genome (60 inputs, 16 outputs, sparsely connected), most
+	// babies adding a link, many species: several hundred innovations are recorded and looked up per generation
+	if *long {
+		rand.Seed(*seed*11000 + 3)
+		opts := presetOpts(0, 600)
+		opts.EpochExecutorType = neat.EpochExecutorTypeParallel
+		opts.CompatThreshold = 0.25
+		opts.MutateAddLinkProb, opts.MutateAddNodeProb, opts.MutateOnlyProb = 0.9, 0.08, 0.7
+		opts.NewLinkTries = 30
+		var start *genetics.Genome
+		for try := 0; try < 50 && start == nil; try++ {
+			if g, err := genetics.VerifNewGenomeRand(1, 60, 16, 0, 0, false, 0.08, opts); err == nil && len(g.Genes) >= 16 {
+				start = g
+			}
+		}
+		if start != nil {
+			// how long the record of one generation gets (measured on a twin population through the sequential phases)
+			if twin, err := genetics.NewPopulation(start, opts); err == nil {
+				frng := rand.New(rand.NewSource(*seed + 991))
+				assignFitness(twin, 6, frng, 1)
+				seq := &genetics.SequentialPopulationEpochExecutor{}
+				tctx := neat.NewContext(context.Background(), opts)
+				if seq.VerifPrepare(tctx, 1, twin) == nil && seq.VerifReproduce(tctx, 1, twin) == nil {
+					longRecord = len(twin.VerifInnovationsUnsafe())
+				}
+			}
+			if pop, err := genetics.NewPopulation(start, opts); err == nil {
+				ex := &genetics.ParallelPopulationEpochExecutor{}
+				ctx := neat.NewContext(context.Background(), opts)
+				frng := rand.New(rand.NewSource(*seed + 991))
+				for gen := 1; gen <= 2; gen++ {
+					assignFitness(pop, 6, frng, gen)
+					if len(pop.Species) > 1 {
+						multi++
+					}
+					before := 0
+					for _, o := range pop.Organisms {
+						before += len(o.Genotype.Genes)
+					}
+					if err := ex.NextEpoch(ctx, gen, pop); err != nil {
+						epochFailed(rep, gen, len(pop.Organisms), err)
+						break
+					}
+					rep.Evaluations++
+					after := 0
+					for _, o := range pop.Organisms {
+						after += len(o.Genotype.Genes)
+					}
+					longGrowth = append(longGrowth, after-before)
+				}
+			}
+		}
+	}
 	if rep.Extra == nil {
 		rep.Extra = map[string]interface{}{}
 	}
+	rep.Extra["long_record_gene_growth_per_epoch"] = longGrowth
+	rep.Extra["long_record_innovations_in_one_generation"] = longRecord
 	rep.Extra["species_in_first_epoch"] = firstEpochSpecies
 	rep.Nontrivial = multi
 	rep.Cases = *runs
